@@ -328,10 +328,15 @@ def mode_build():
             terms = [[1.0, [[0, "Z"], [1, "Z"], [2, "X"]]]]
         case = {"n": n, "ops": ops, "terms": terms, "exact": ci < req["nexact"], "status": "ok"}
         cases.append(case)
-        try:
+        for extra in (0, 2, 4, None):
+          try:
+            if extra is None:
+                raise RuntimeError("cut_circuit needs more than n+4 device wires")
+            nd = n + extra      # the fragments may need fresh device wires (one per re-entering cut): retry with spare wires
+            case["device_wires"] = nd
             nocut = [mk_op(d) for d in ops if d[0] != "WireCut"]
             case["uncut"] = tape_desc(qp.tape.QuantumScript(nocut, []), circ_cache)
-            dev = dev_all.setdefault(n, qp.device("default.qubit", wires=n))
+            dev = dev_all.setdefault(nd, qp.device("default.qubit", wires=nd))
             full = build_tape(case)
             # (1) the transform applied to a QNode (expand transform, Sum splitting, execution, post-processing)
             qn = qp.QNode(lambda: [qp.apply(o) for o in full.operations] and qp.apply(full.measurements[0]), dev)
@@ -348,7 +353,7 @@ def mode_build():
             for ti in range(len(terms)):
                 tp = build_tape(case, ti)
                 del RECORDED[:]
-                tapes, fn = qp.cut_circuit.tape_transform(tp, device_wires=qp.wires.Wires(range(n)))
+                tapes, fn = qp.cut_circuit.tape_transform(tp, device_wires=qp.wires.Wires(range(nd)))
                 st = analyse(tapes, fn, list(RECORDED))
                 SESS[(ci, ti)] = (tapes, fn)
                 res = qp.execute(tapes, dev)
@@ -362,11 +367,16 @@ def mode_build():
                 if case["exact"] and len(tapes) <= req.get("maxtapes", 10 ** 9) and len(circ_cache) < req.get("maxcirc", 10 ** 9):
                     st["tapes"] = [tape_desc(t, circ_cache) for t in tapes]
                 case["t"].append(st)
-        except NotExtractable as e:
+            break
+          except qp.exceptions.WireError:
+            continue            # not enough device wires for the fragments' fresh wires: documented precondition, retry
+          except NotExtractable as e:
             case["status"], case["detail"] = "notex", str(e)[:200]
-        except Exception as e:
+            break
+          except Exception as e:
             import traceback
             case["status"], case["detail"] = "error", f"{type(e).__name__}: {str(e)[:300]} | " + traceback.format_exc()[-600:]
+            break
     # automatic cutter
     auto = []
     try:
@@ -374,6 +384,40 @@ def mode_build():
         have_kahypar = True
     except Exception:
         have_kahypar = False
+    # fixed corpus (independent of the seed and of KaHyPar): the documented `auto_cutter=<callable>` interface with a
+    # partitioner that returns given graph edges, placed by find_and_place_cuts / place_wire_cuts.  The cut edges join
+    # gates that are ADJACENT in the tape (no operation in between: the inserted WireCut needs a position strictly
+    # between two consecutive positions), gates separated by operations on other wires, the first operations of the
+    # tape, and both wires of two consecutive two-qubit gates.
+    frng = random.Random(2424)
+    for fc in fixed_auto_corpus():
+        a = {"n": fc["n"], "ops": fc["ops"], "terms": fc["terms"], "status": "ok", "devw": fc["devw"],
+             "cutter": "callable returning the edges (op index before, op index after) %s" % fc["cut"], "cut_edges": fc["cut"]}
+        auto.append(a)
+        try:
+            a["uncut"] = tape_desc(qp.tape.QuantumScript([mk_op(d) for d in fc["ops"]], []), circ_cache)
+            tp = build_tape(a)
+            tapes, fn = qp.cut_circuit.tape_transform(tp, auto_cutter=edge_cutter(tp.operations, fc["cut"], a),
+                                                      device_wires=qp.wires.Wires(range(a["devw"])))
+            a["maxw"] = max(len(t.wires) for t in tapes)
+            kw = fn.keywords
+            a["k"] = kw["communication_graph"].number_of_edges()
+            a["nfrag"] = len(kw["prepare_nodes"])
+            if a.get("edges_found") != len(fc["cut"]) or a["k"] != len(fc["cut"]):
+                raise RuntimeError(f"harness: requested {len(fc['cut'])} cut edges, cutter found {a.get('edges_found')}, communication graph has {a['k']}")
+            a["dq"] = float(fn(qp.execute(tapes, qp.device("default.qubit", wires=fc["n"]))))
+            st = analyse_auto(tapes, fn)
+            nres = sum(len(t.measurements) for t in tapes)
+            vals = [dyadic(frng) for _ in range(nres)]
+            r = fn(nest([float(v) for v in vals], tapes))
+            st["dy_in"] = [[v.numerator, v.denominator] for v in vals]
+            fr = Fr(float(r)); st["dy_out"] = [fr.numerator, fr.denominator]
+            a["st"] = st
+        except NotExtractable as e:
+            a["status"], a["detail"] = "notex", str(e)[:200]
+        except Exception as e:
+            import traceback
+            a["status"], a["detail"] = "error", f"{type(e).__name__}: {str(e)[:300]} | " + traceback.format_exc()[-600:]
     for ai in range(req.get("nauto", 0) if have_kahypar else 0):
         n, ops = gen_circuit(rng, rng.choice([1, 2]), min(nmax, 5))
         ops = [d for d in ops if d[0] != "WireCut"] if rng.random() < 0.7 else ops
@@ -437,6 +481,46 @@ def mode_build():
     print(json.dumps({"cases": cases, "auto": auto, "circuits": circs, "tables": tables(), "kahypar": have_kahypar, "mc": mcs}), flush=True)
 
 
+def edge_cutter(tape_ops, cut, info):
+    """a user-supplied partitioner (auto_cutter=<callable>): returns the graph edges joining operation i to operation
+    j of the tape (on wire w if given); called by find_and_place_cuts once per probed partitioning"""
+    def cutter(graph, **kwargs):
+        found = []
+        for spec in cut:
+            i, j = spec[0], spec[1]
+            for e in graph.edges(keys=True, data="wire"):
+                a, b, k, w = e
+                if a.obj is tape_ops[i] and b.obj is tape_ops[j] and (len(spec) < 3 or w == spec[2]):
+                    found.append((a, b, k))
+        info["edges_found"] = len(found)
+        return found
+    return cutter
+
+
+def fixed_auto_corpus():
+    A1, A2, A3 = 2 * math.atan2(4, 3), 2 * math.atan2(3, 4), 2 * math.atan2(5, 12)
+    pre = [["RX", [A1], [0]], ["RY", [A2], [1]], ["RX", [A3], [2]]]
+    out = []
+    # cut edge between two gates adjacent in the tape (CNOT(0,1) directly followed by CNOT(1,2))
+    out.append({"n": 3, "devw": 2, "ops": pre + [["CNOT", [], [0, 1]], ["CNOT", [], [1, 2]], ["RY", [A2], [2]]],
+                "terms": [[1.0, [[0, "Z"], [1, "Z"], [2, "X"]]]], "cut": [[3, 4]]})
+    # control: an operation on another wire between the two gates
+    out.append({"n": 3, "devw": 2, "ops": pre + [["CNOT", [], [0, 1]], ["RY", [-A2], [0]], ["CNOT", [], [1, 2]], ["RY", [A2], [2]]],
+                "terms": [[1.0, [[0, "Z"], [1, "Z"], [2, "X"]]]], "cut": [[3, 5]]})
+    # two cuts, both between adjacent gates, three fragments in a chain; downstream gate acts non-trivially on the cut wire
+    out.append({"n": 4, "devw": 2, "ops": pre + [["RY", [A1], [3]], ["CRY", [A2], [0, 1]], ["CRX", [A1], [1, 2]], ["CRY", [-A3], [2, 3]],
+                                                 ["RX", [A2], [3]]],
+                "terms": [[1.0, [[0, "Y"], [1, "Z"], [2, "Z"], [3, "X"]]]], "cut": [[4, 5], [5, 6]]})
+    # the cut's source gate is the first operation of the tape and its target the second
+    out.append({"n": 3, "devw": 2, "ops": [["IsingXX", [A2], [0, 1]], ["CRX", [A1], [1, 2]], ["RX", [A3], [0]], ["RY", [A1], [2]]],
+                "terms": [[1.0, [[0, "Z"], [1, "X"], [2, "Z"]]]], "cut": [[0, 1]]})
+    # two consecutive two-qubit gates on the same wire pair, both joining wires cut
+    out.append({"n": 4, "devw": 3, "ops": pre + [["RY", [A3], [3]], ["CNOT", [], [0, 1]], ["CRY", [A1], [1, 2]], ["IsingXX", [A2], [1, 2]],
+                                                 ["CNOT", [], [2, 3]], ["RX", [A1], [1]]],
+                "terms": [[1.0, [[0, "Z"], [1, "Y"], [2, "Z"], [3, "X"]]]], "cut": [[5, 6, 1], [5, 6, 2]]})
+    return out
+
+
 def analyse_auto(tapes, fn):
     """structure without the manual re-derivation (labels of measured words are still read from the tapes)"""
     kw = fn.keywords
@@ -497,7 +581,28 @@ def mode_post():
         tapes, fn = SESS[(item["ci"], item["ti"])]
         r = fn(nest(item["results"], tapes))
         out.append({"status": "ok", "value": float(r)})
-    print(json.dumps({"out": out, "mc": mode_mc(), "joint_probe": joint_probe() if req.get("mc") else None}), flush=True)
+    print(json.dumps({"out": out, "mc": mode_mc(), "joint_probe": joint_probe() if req.get("mc") else None,
+                      "settings_probe": settings_probe() if req.get("mc") else None}), flush=True)
+
+
+def settings_probe():
+    """the random measure/prepare settings drawn by expand_fragment_tapes_mc for one cut: the estimator assumes the 8 settings
+    are equally likely; histogram over 5 seeds x 800 shots (independent of any device)"""
+    from pennylane import qcut
+    ops = [qp.Hadamard(0), qp.CNOT([0, 1]), qp.WireCut(wires=1), qp.CNOT([1, 2])]
+    tape = qp.tape.QuantumScript(ops, [qp.sample(wires=[0, 1, 2])], shots=10)
+    g = qcut.tape_to_graph(tape)
+    qcut.replace_wire_cut_nodes(g)
+    frags, cg = qcut.fragment_graph(g)
+    ft = [qcut.graph_to_tape(f) for f in frags]
+    cnt = np.zeros(8)
+    other = 0
+    for seed in range(5):
+        _, settings = qcut.expand_fragment_tapes_mc(ft, cg, shots=800, seed=seed)
+        sarr = np.asarray(settings).ravel()
+        other += int(np.sum((sarr < 0) | (sarr > 7)))
+        cnt += np.bincount(np.clip(sarr, 0, 7), minlength=8)
+    return {"counts": [int(x) for x in cnt], "outside_0_7": other, "draws": int(cnt.sum())}
 
 
 def joint_probe():
